@@ -13,7 +13,7 @@ import threading
 
 from vlib import core  # noqa: F401
 
-from nutree import Tree
+from nutree import Tree, TypedTree
 
 WATCHDOG_S = 60
 _CURRENT = {"sched": None}
@@ -165,6 +165,23 @@ class SchedTree(Tree):
     """Tree whose `with tree:` first asks the scheduler's re-entrant lock model
     (so that a blocked thread is known to the scheduler) and then takes the
     real lock.  All of nutree's own `with self:` go through here."""
+
+    def __enter__(self):
+        s = _CURRENT["sched"]
+        if s is not None:
+            s.acquire(self)
+        return super().__enter__()
+
+    def __exit__(self, type, value, traceback):
+        r = super().__exit__(type, value, traceback)
+        s = _CURRENT["sched"]
+        if s is not None:
+            s.release(self)
+        return r
+
+
+class SchedTypedTree(TypedTree):
+    """same for typed trees"""
 
     def __enter__(self):
         s = _CURRENT["sched"]
